@@ -668,13 +668,15 @@ func FunctionMap() map[string]physical.FunctionDetails {
 						}
 
 						return func(values []octosql.Value) (octosql.Value, error) {
-							pattern := strings.ToLower(values[1].Str)
+							pattern := values[1].Str
 
 							var reg *regexp.Regexp
 							if cached, ok := regexpCache.Get(pattern); ok {
 								reg = cached.(*regexp.Regexp)
 							} else {
-								compiled, err := regexp.Compile(pattern)
+								// case insensitivity is the regexp's (?i) flag: lower-casing the pattern text would
+								// turn classes like \S, \W, \D into their complements
+								compiled, err := regexp.Compile("(?i)" + pattern)
 								if err != nil {
 									return octosql.Value{}, fmt.Errorf("couldn't compile ~ pattern regexp expression: '%s': %w", pattern, err)
 								}
@@ -683,7 +685,7 @@ func FunctionMap() map[string]physical.FunctionDetails {
 								regexpCache.Set(pattern, compiled, 1)
 							}
 
-							return octosql.NewBoolean(reg.MatchString(strings.ToLower(values[0].Str))), nil
+							return octosql.NewBoolean(reg.MatchString(values[0].Str)), nil
 						}
 					}(),
 				},
